@@ -4,6 +4,7 @@ CONSTANTS
   Bodies <- BodiesH2
   Modes <- OnlyAnsi
   ValueChoices <- DefaultValues
+  Ends <- OneEnd
   Seconds <- NoSecond
   TickMs <- Ticks1
   MaxTicks = 3
